@@ -185,7 +185,7 @@ theorem dataclass_key_set_must_match (cls : String) (fs : List (String × Tree))
     ∃ e, fromStateDict (.struct cls fs aux) (.dict skvs) = .error e := by
   cases hc : localCheck ["."] (.struct cls fs aux) (.dict skvs) with
   | some e =>
-    exact restore_rejects _ _ hw hs hnl [] _ _ e (by simp [Tree.sub]) (by simp [STree.sub]) (by simpa using hc)
+    exact restore_rejects _ _ hw hs hnl [] (.struct cls fs aux) (.dict skvs) e rfl rfl hc
   | none =>
     have := (mismatch_dataclass ["."] cls fs aux skvs).mp hc
     rcases hdiff with ⟨k, h1, h2⟩ | ⟨k, h1, h2⟩
